@@ -373,6 +373,26 @@ pub fn make(spec: &Value, rng: &mut Rng) -> Result<Rig, String> {
                 Box::new(rustradio::symbol_sync::TedZeroCrossing::new()), Box::new(filter));
             rig!(b, [i], [ring_out(o)])
         }
+        "Map<u8>" => {
+            let (i, r) = ring_in::<u8>(spec, 0, rng);
+            let (b, o) = MapBuilder::new(r, |x: u8| x.wrapping_mul(3).wrapping_add(1)).name("times3plus1").build();
+            rig!(b, [i], [ring_out(o)])
+        }
+        "Map<Float,Complex>" => {
+            let (i, r) = ring_in::<Float>(spec, 0, rng);
+            let (b, o) = MapBuilder::new(r, |x: Float| Complex::new(x, -x)).build();
+            rig!(b, [i], [ring_out(o)])
+        }
+        "CmaEqualizer" => {
+            let (i, r) = ring_in::<Complex>(spec, 0, rng);
+            let (b, o) = CmaEqualizer::new(pu(spec, "ntaps", 1) as usize, 1.0, 0.001, r);
+            rig!(b, [i], [ring_out(o)])
+        }
+        "DebugFilter<u8>" => {
+            let (i, r) = ring_in::<u8>(spec, 0, rng);
+            let (b, o) = DebugFilter::new(r);
+            rig!(b, [i], [Box::new(crate::bench::OutStr::new(o))])
+        }
         "ToText<u8>" => {
             let (i, r) = ring_in::<u8>(spec, 0, rng);
             let (b, o) = ToText::new(vec![r]);
